@@ -222,7 +222,7 @@ UNITS = [
     ("Tracker", unit_tracker, ["Value"], ["C03", "C04"]),
     ("ActionData", unit_actiondata, ["Value", "Events"], ["C10", "C01"]),
     ("Modifiers", unit_modifiers, ["Value"], ["C18"]),
-    ("Refs", unit_refs, ["Value"], ["C13"]),
+    ("Refs", unit_refs, ["Value"], ["C13", "C18"]),
 ]
 
 HEADER = """/- GENERATED by /verif/tools/codegen.py (translator: tools/rs2lean.py) from /repo/src on every run. Do not edit. -/
